@@ -32,16 +32,21 @@ TRUSTED_EXTRA = ["C12: forbes/jaccard values are recomputed in the harness from 
 MANIFEST = {
     "text": "Lean 4 theorems about explicit pull-step models of iter_chromosomes, SynchedStream, left_join and of the consumers "
             "(pull-all loop; zip with its left-to-right pull order and stop-at-shortest): for every genome order, ignored set and "
-            "sequence of groups with distinct names, if pull-all evaluation completes then output i is exactly the group named "
-            "order[i] or empty and every group name is in order or ignored (sync_complete), and compatible data is accepted; with "
-            "the one-item look-ahead of the repair the same holds for ANY consumer that obtains all |order| items, whether or not "
-            "it ever pulls again (sync_complete_any_consumer). The shipped rules are refuted in Lean with witnesses: a mis-ordered "
-            "stream that is not the first argument of zip completes silently, and included names containing '_' are skipped. "
+            "sequence of groups with distinct names, pull-all evaluation of each of the three generators EQUALS the specification "
+            "(completes iff every non-ignored name is in the order and the names come in a compatible order; then output i is the "
+            "group named order[i] or empty; otherwise an error) — sync_complete, synched_complete, left_join_complete; with the "
+            "one-item look-ahead of the repair the same holds for ANY consumer that obtains all |order| items of iter_chromosomes / "
+            "SynchedStream whether or not it ever pulls again (…_any_consumer), and for the modelled zip consumer itself: if zip over "
+            "any list of iterators completes with one row per contig then every iter_chromosomes / SynchedStream column, in any "
+            "operand position, is its stream's specification (zip_columns_complete: streamable, forbes, jaccard, the computation "
+            "graph); every chunking of the entries gives the same group sequence (groups_chunking). The shipped rules are refuted in "
+            "Lean with witnesses: a mis-ordered stream that is not the first argument of zip (or a single data stream behind the "
+            "chromosome-name stream of the computation graph) completes silently, and included names containing '_' are skipped. "
             "Obligations regenerated from the running code every run: chromosome_order covers every included name, both "
             "generators look one item ahead. Correspondence: implementation vs Lean model vs Lean spec vs Python oracle over all "
             "group orders x chunkings x consumers.",
-    "note": "groupby/join_groupbys across chunk borders is modelled and exercised, its chunking-independence theorem belongs to "
-            "C11. The computation graph is modelled only as a zip-like consumer of the stream nodes.",
+    "note": "The computation graph is modelled only as a zip-like consumer of the stream nodes (left-to-right argument evaluation, "
+            "end at the first StopIteration).",
     "technique": "Lean 4 proof over pull-step state machines (induction on the genome order) + generated obligations + differential "
                  "correspondence with the implementation",
     "design": "§6 C12",
@@ -349,7 +354,9 @@ def agree_model(c, got, m):
         if len(rows) != len(sizes):
             return False
         v = _similarity(c["op"], sizes, [r[0] for r in rows], [r[1] for r in rows])
-        return v is not None and got == {"value": v}
+        if v is None:
+            return isinstance(got, dict) and "value" in got     # 0/0: completes with some value (C08's concern)
+        return got == {"value": v}
     return core.canon(got) == core.canon(m)
 
 
@@ -432,7 +439,7 @@ def cases(tier, rng):
         for filt in (True, False):
             names = contigs[:1] + [IGN] + contigs[1:]           # the '_' name sits inside the genome order
             pool = contigs + [IGN, UNK]
-            max_len = min(len(pool), 4 if big else 3) if n >= 3 else len(pool)
+            max_len = (len(pool) if n <= 3 else 5) if big else (len(pool) if n <= 2 else 3)
             for seq in _group_sequences(pool, max_len):
                 groups = _with_ids(seq, rng)
                 n_e = sum(len(ids) for _, ids in groups)
